@@ -100,7 +100,107 @@ macro_rules! paste_mod {
 
 include!(concat!(env!("OUT_DIR"), "/drivers.rs"));
 
+// ------------------------------------------------------------------------------------ C35
+// case {"k":"emb","flow":"dm_u32"|"dm_rich","sender":s,"members":[..],"items":[[dest,V],..]}
+//   -> {"wire":[[dest,[bytes]],..], "recv":[[member,[[from,V],..]],..]}
+// The sender cluster member's generated dataflow serializes and addresses the items; the frames
+// addressed to each member are handed (tagged with the sender's id, as the transport does) to
+// that member's generated receiver dataflow.
+use dfir_rs::bytes::{Bytes, BytesMut};
+use hydro_lang::location::{MemberId, TaglessMemberId};
+
+type Rich = h_quorum_flows::Rich;
+
+fn rich_from(v: &Value) -> Rich {
+    let o = v[1].as_array().unwrap();
+    let opt = if o.is_empty() {
+        None
+    } else {
+        Some(o[0].as_array().unwrap().iter().map(|s| s.as_str().unwrap().to_owned()).collect())
+    };
+    let r = if v[2]["tag"].as_u64().unwrap() == 0 {
+        Ok(v[2]["v"].as_i64().unwrap())
+    } else {
+        Err(v[2]["v"].as_str().unwrap().to_owned())
+    };
+    (v[0].as_u64().unwrap() as u32, opt, r, v[3].as_bool().unwrap())
+}
+fn rich_to(x: &Rich) -> Value {
+    let opt = match &x.1 {
+        None => json!([]),
+        Some(v) => json!([v]),
+    };
+    let r = match &x.2 {
+        Ok(i) => json!({"tag": 0, "v": i}),
+        Err(s) => json!({"tag": 1, "v": s}),
+    };
+    json!([x.0, opt, r, x.3])
+}
+fn u32_from(v: &Value) -> u32 {
+    v.as_u64().unwrap() as u32
+}
+fn u32_to(x: &u32) -> Value {
+    json!(*x)
+}
+
+macro_rules! run_dm {
+    ($case:ident, $name:ident, $sender:ident, $receiver:ident, $t:ty, $from:ident, $to:ident) => {{
+        let sender = TaglessMemberId::from_raw_id($case["sender"].as_u64().unwrap() as u32);
+        let members: Vec<u32> = $case["members"].as_array().unwrap().iter().map(|x| x.as_u64().unwrap() as u32).collect();
+        let q: Rc<RefCell<VecDeque<(MemberId<h_quorum_flows::Dst>, $t)>>> = Rc::new(RefCell::new(VecDeque::new()));
+        for p in $case["items"].as_array().unwrap() {
+            q.borrow_mut().push_back((MemberId::from_raw_id(p[0].as_u64().unwrap() as u32), $from(&p[1])));
+        }
+        let wire: Rc<RefCell<Vec<(u32, Vec<u8>)>>> = Rc::new(RefCell::new(Vec::new()));
+        {
+            let w = wire.clone();
+            let mut net_out = generated::$name::$sender::EmbeddedNetworkOut {
+                dm_data: move |(id, b): (TaglessMemberId, Bytes)| w.borrow_mut().push((id.get_raw_id(), b.to_vec())),
+            };
+            let mut df = generated::$name::$sender(&sender, QS(q.clone()), &mut net_out);
+            df.run_tick_sync();
+            drop(df);
+        }
+        let mut recv = Vec::new();
+        for d in &members {
+            let frames: VecDeque<Result<(TaglessMemberId, BytesMut), std::io::Error>> = wire
+                .borrow()
+                .iter()
+                .filter(|(to, _)| to == d)
+                .map(|(_, b)| Ok((sender.clone(), BytesMut::from(&b[..]))))
+                .collect();
+            let got: Rc<RefCell<Vec<Value>>> = Rc::new(RefCell::new(Vec::new()));
+            {
+                let g = got.clone();
+                let mut outputs = generated::$name::$receiver::EmbeddedOutputs {
+                    output: move |(from, v): (MemberId<h_quorum_flows::Src>, $t)| {
+                        g.borrow_mut().push(json!([from.get_raw_id(), $to(&v)]))
+                    },
+                };
+                let me = TaglessMemberId::from_raw_id(*d);
+                let net_in = generated::$name::$receiver::EmbeddedNetworkIn { dm_data: QS(Rc::new(RefCell::new(frames))) };
+                let mut df = generated::$name::$receiver(&me, &mut outputs, net_in);
+                df.run_tick_sync();
+                drop(df);
+            }
+            recv.push(json!([d, Value::Array(std::mem::take(&mut *got.borrow_mut()))]));
+        }
+        json!({"wire": wire.borrow().iter().map(|(d, b)| json!([d, b])).collect::<Vec<_>>(), "recv": recv})
+    }};
+}
+
+fn run_emb(case: &Value) -> Value {
+    match case["flow"].as_str().unwrap_or("") {
+        "dm_u32" => run_dm!(case, dm_u32, dm_u32_sender, dm_u32_receiver, u32, u32_from, u32_to),
+        "dm_rich" => run_dm!(case, dm_rich, dm_rich_sender, dm_rich_receiver, Rich, rich_from, rich_to),
+        _ => json!({"bad_case": "unknown emb flow"}),
+    }
+}
+
 fn run(case: &Value) -> Value {
+    if case.get("k").and_then(|k| k.as_str()) == Some("emb") {
+        return run_emb(case);
+    }
     let flow = case["flow"].as_str().expect("flow");
     if let Some(runs) = case.get("runs").and_then(|r| r.as_array()) {
         // several batchings of one response sequence, each on a fresh dataflow instance
